@@ -113,6 +113,12 @@ class Space3(c01.Space):
                 p = list(base)
                 p[k] = '.U.'
                 yield case('undeclared-enum-item', tk + ':U-for-boolean', mk(p), k)
+            if r[0] == 'enum' or (r[0] == 'simple' and r[1] in ('BOOLEAN', 'LOGICAL')):
+                # the names the library has for the states and values of these types are not items of the type: .UNSET., .UNKNOWN., .TRUE., .FALSE.
+                for lit in ('.UNSET.', '.UNKNOWN.', '.TRUE.', '.FALSE.'):
+                    p = list(base)
+                    p[k] = lit
+                    yield case('undeclared-enum-item', tk + ':library-name-of-a-state', mk(p), k)
             if r[0] == 'enum':
                 # an undeclared item that abbreviates or extends a declared one is as undeclared as any other
                 it0 = r[1][0].upper()
